@@ -507,6 +507,9 @@ def mon_limits(ctx, conn):
                 viol(ctx, conn, "stream-table-above-limit", dict(strms=d["strms"], limit=mcs), known_class="priority-created-stream")
             if d["ring"] > 256:
                 viol(ctx, conn, "closed-ring-above-cap", dict(ring=d["ring"]))
+            # the ids of streams this side reset (refused ones included) are remembered within the same bound
+            if d.get("rmem", 0) > 256:
+                viol(ctx, conn, "reset-memory-above-cap", dict(remembered=d["rmem"], cap=256))
             # octets of a header field that is not complete yet, summed over the table: 4 * MaxHeaderListSize each at
             # most (F68 repaired; Props/C13 Full.held_header_octets_bounded), and only the stream whose header block is
             # open holds any (one block at a time per connection)
